@@ -81,7 +81,8 @@ META = {
         'probes': ['recompile_after_change', 'mixed_space_prior',
                    'derived_disabled_after_enable', 'obs_param_fitted',
                    'update_after_direct_write', 'misuse_fired',
-                   'real_model_run', 'settings_from_input_file'],
+                   'real_model_run', 'settings_from_input_file',
+                   'nonpositive_param_fitted'],
         'real': ['taurex.optimizer.Optimizer (all mutators and views)',
                  'ParameterParser.read / generate_fitting_parameters / '
                  'setup_optimizer, create_prior (prior text form)',
@@ -92,8 +93,10 @@ META = {
         'stub': ['toy ForwardModel/BaseSpectrum subclasses with configurable '
                  'parameter tables (harness)', 'in-memory opacity tables'],
         'assumptions': COMMON_ASSUMPTIONS + [
-            'bounds and values are > 0 (log10 precondition of log-space '
-            'parameters)',
+            'bounds and values are > 0 wherever a log space can be involved '
+            '(log10 precondition); a share of the parameters lives in linear '
+            'space only (linear mode, Uniform/Gaussian priors) with signed '
+            'bounds and values incl. exactly 0',
             'views are compared immediately after compile_params(); between a '
             'settings change and the next compile they are unspecified',
             'with a user prior, fit_boundaries may be either the parameter '
